@@ -5,7 +5,7 @@ import LinOp.C04.Model
   sel invquad <n> <maxChol> <fast> <logprob>
   trace <maxChol> <fast> <precSize> <minPrec> <op tokens …>      op ::= gen n | ad n | diag n | id n | tri n | chol n
         | kron op op | kron3 op op op | block k op | brep op | lrrad n k cached | kpc op op
-  tri|chols|cholinv|cholinvspec <upper 0/1> <n> <m> <T> <B>
+  tri|chols|cholinvroot|cholinvprev|cholinvspec <upper 0/1> <n> <m> <T> <B>     (cholinvroot ignores B)
   diag|diagchol <n> <m> <d> <B>
   kron <n1> <n2> <c> <Ainv> <Binv> <rhs>        krond <n1> <n2> <A> <B>
   left <n> <o> <p> <Ainv> <L> <R>
@@ -71,7 +71,8 @@ def run (line : String) : String :=
       let T := getM t n n; let B := getM b n m
       if cmd = "tri" then out (triSolve (b01 up) T B)
       else if cmd = "chols" then out (cholSolve (b01 up) T B)
-      else if cmd = "cholinv" then out (cholInverseSolveAsCoded (b01 up) T B)
+      else if cmd = "cholinvprev" then out (cholInverseSolvePrevious (b01 up) T B)
+      else if cmd = "cholinvroot" then out (cholInverseRoot (b01 up) T)
       else if cmd = "cholinvspec" then out (cholInverseSolveSpec (b01 up) T B)
       else "bad-op"
     | _, _, _, _ => "bad-op"
